@@ -38,11 +38,11 @@ def make(rng, S, dims):
     if dims == 1:
         name = rng.choice(["lin", "spl"])
         n = rng.choice([3, 4, 5, 8])
-        trailing = gen.trailing_shape(rng, 2)
+        trailing = gen.trailing_shape(rng, 2, allow_zero=rng.random() < 0.25)
         shape = [n] + trailing
     else:
         name = "bil"
-        shape = [rng.choice([2, 3, 5]), rng.choice([2, 4])] + gen.trailing_shape(rng, 1)
+        shape = [rng.choice([2, 3, 5]), rng.choice([2, 4])] + gen.trailing_shape(rng, 1, allow_zero=rng.random() < 0.25)
     size = gen.shape_size(shape)
     if S == "Q":
         axes = [gen.axis_q(rng, shape[k]) for k in range(dims)]
